@@ -54,6 +54,19 @@ Theorem C13_walker_finds_every_note :
 Proof. exact note_walk_table. Qed.
 Print Assumptions C13_walker_finds_every_note.
 
+(* adding notes one after the other (add_note on the section): the section's
+   contents become the concatenation of the records and the adding accessor
+   records exactly the records' start positions — the positions at which
+   C13_note_returned_unchanged reads them back, and which a new accessor's
+   walker finds (C13_walker_finds_every_note) *)
+Theorem C13_add_note_bookkeeping :
+  forall (junk : N -> N) (xe : bool) e (ns : list note3) s starts,
+    Inv s -> sh_size s + lenN (concat (map (rec3 e) ns)) < size_bound (s_cls s) ->
+    exists s', note_adds junk xe e s starts ns = Ok (s', starts ++ starts_from e (sh_size s) ns) /\
+      Inv s' /\ contents s' = contents s ++ concat (map (rec3 e) ns) /\ s_cls s' = s_cls s.
+Proof. exact note_adds_spec. Qed.
+Print Assumptions C13_add_note_bookkeeping.
+
 (* the walker over add_note's output finds the notes; reading them back gives
    the original fields (concrete two-note table, both byte orders) *)
 Example C13_example :
